@@ -104,6 +104,7 @@ struct World {
     bool judging(const char *props) const { return strstr(props, prop.c_str()) != nullptr; }
     void viol(const char *props, const std::string &sig, const std::string &detail);
     void fault(const std::string &k) { faults[k]++; }
+    std::set<std::string> other_env;   // other environment variables a plan set (removed at the end of the run)
     long orphan_blocks = 0;   // blocks of instances deliberately left registered (ORPHAN): the application's leak, not the library's
     void probe(const std::string &k) { probes[k]++; }
 };
